@@ -28,6 +28,9 @@ class C03(Property):
                 seen = {tuple(base)}
                 for j in range(5):
                     perm = common.constrained_shuffle(rng, pieces)
+                    if rng.random() < 0.4:
+                        # an option of an enclosing level written right of the command name may stand anywhere there
+                        perm = common.move_outer(rng, perm) or perm
                     argv = gen.flatten(perm)
                     if tuple(argv) in seen:
                         continue
